@@ -375,9 +375,33 @@ void
 				     perm_r, &dense[k], pxgstrf_shared)) )
 		      return 0;
 
-		    /* Prune columns [0:jj-1] using column jj */
+		    /* Prune columns [0:jj-1] using column jj.
+		       Column jj has been released above, so a later column of
+		       the pipeline may get here while this one is still
+		       pruning: two columns must not partition the row
+		       subscripts of the same supernode at the same time. */
+#if ( MACH==SUN )
+		    mutex_lock( &pxgstrf_shared->lu_locks[LLOCK] );
+#elif ( MACH==DEC || MACH==PTHREAD )
+		    pthread_mutex_lock( &pxgstrf_shared->lu_locks[LLOCK] );
+#elif ( MACH==SGI || MACH==ORIGIN )
+#pragma critical lock( pxgstrf_shared->lu_locks[LLOCK] )
+#elif ( MACH==CRAY_PVP )
+#pragma _CRI guard LLOCK
+#elif ( MACH==OPENMP )
+#pragma omp critical (LLOCK)
+#endif
+		    {
 		    pxgstrf_pruneL(jj, perm_r, pivrow, nseg, segrep,
 				   &repfnz[k], xprune, ispruned, Glu);
+		    }
+#if ( MACH==SUN )
+		    mutex_unlock( &pxgstrf_shared->lu_locks[LLOCK] );
+#elif ( MACH==DEC || MACH==PTHREAD )
+		    pthread_mutex_unlock( &pxgstrf_shared->lu_locks[LLOCK] );
+#elif ( MACH==CRAY_PVP )
+#pragma _CRI endguard LLOCK
+#endif
 
 		    /* Reset repfnz[] for this column */
 		    pxgstrf_resetrep_col (nseg, segrep, &repfnz[k]);
